@@ -56,6 +56,16 @@ CHECKS = {
              'against the observer spec.',
         design='5/C10', technique='TLA+ client/peer model, TLC exhaustive + TLC trace validation of real sessions',
         note='Scripted peer semantics as in DESIGN.md section 7 (C10); content only after 354. ' + TB),
+    'C18': dict(
+        level='model_checking',
+        text='The three PROXY header readers are TLA+ automata over recv_into(n) returning 1..n bytes; TLC checks for every '
+             'well-formed header shape (v1 lengths 15..107, v2 declared lengths incl. TLV and 0) and every short-read '
+             'pattern that no request reaches past the header, the reader stops exactly at its end, and it terminates. '
+             'Real ProxyProtocol/V1/V2 runs on generated valid, constructively malformed, corrupted and random headers '
+             'with payload and three short-read modes are validated by TLC: request bound, exact consumption, result '
+             'equal to the structured value, no escaping exception (reader drift vs the automaton is reported).',
+        design='5/C18', technique='TLA+ reader automata, TLC exhaustive + TLC trace validation of real parses',
+        note='IP text canonicalisation delegated to the generator (inet_pton/ntop). ' + TB),
 }
 
 HOOK_COMMITS = []
